@@ -1,8 +1,11 @@
 #!/usr/bin/env python3
 """Assemble /verif/seeded/<ID>-<X>/ from a sub-agent's output directory and the confirmation log (one-off helper)."""
 import json, os, re, shutil, subprocess, sys
-OUTS = {"A": "/tmp/seed/out", "B": "/tmp/seed/out", "C": "/tmp/seed/out2", "D": "/tmp/seed/out2"}
+OUTS = {"A": "/tmp/seed/out", "B": "/tmp/seed/out", "C": "/tmp/seed/out2", "D": "/tmp/seed/out2", "E": "/tmp/seed/out4", "F": "/tmp/seed/out4"}
+# round 4 (E = a slip hidden inside a restructuring, F = a small edit in a helper / caller / sibling): files are named A / B in out4
+SRC_LETTER = {"E": "A", "F": "B"}
 LOGS = ["/tmp/seed/confirm_batch1.log", "/tmp/seed/confirm_batch2.log", "/tmp/seed/confirm_round2.log"]
+LOG4 = "/tmp/seed/confirm_round4.log"
 MISSED = {"C01-B": "vectorised gather: needed the column-wise symbolic evaluation of the coordinate maps (C01.b)",
           "C10-B": "needed C10.f (results not shared with the object) and getattr aliasing in the effect engine",
           "C04-A": "needed C04.g (matrix version / fresh solver)", "C04-B": "needed C04.f (snapshot refreshed per iteration)",
@@ -39,6 +42,14 @@ for lg in LOGS:
             m = re.match(r"(C\d\d) ([ABCD]) (.*)", line.strip())
             if m:
                 conf[(m.group(1), m.group(2))] = m.group(3)
+if os.path.exists(LOG4):
+    for line in open(LOG4):
+        m = re.match(r"(C\d\d) ([AB]) (.*)", line.strip())
+        if m:
+            conf[(m.group(1), {"A": "E", "B": "F"}[m.group(2)])] = m.group(3)
+ROUND4_MISSED = {}
+if os.path.exists("/verif/tools/round4_first_run.json"):
+    ROUND4_MISSED = json.load(open("/verif/tools/round4_first_run.json"))
 done = []
 for (pid, x), line in sorted(conf.items()):
     if "demo_clean=0 demo_patched=1 compile=0 tests=[123 passed" not in line:
@@ -46,11 +57,12 @@ for (pid, x), line in sorted(conf.items()):
     src = f"{OUTS[x]}/{pid}"
     dst = f"/verif/seeded/{pid}-{x}"
     os.makedirs(dst, exist_ok=True)
-    shutil.copy(f"{src}/patch_{x}.diff", f"{dst}/patch.diff")
-    shutil.copy(f"{src}/demo_{x}.py", f"{dst}/demo.py")
+    sx = SRC_LETTER.get(x, x)
+    shutil.copy(f"{src}/patch_{sx}.diff", f"{dst}/patch.diff")
+    shutil.copy(f"{src}/demo_{sx}.py", f"{dst}/demo.py")
     notes = open(f"{src}/notes.md").read()
     secs = re.split(r"(?m)^## ", notes)
-    sec = next((s for s in secs[1:] if re.match(rf"(Change |Patch |Seed )?{x}\b", s)), None) or (secs[1 + "ABCD".index(x) % 2] if len(secs) > 2 else notes)
+    sec = next((s for s in secs[1:] if re.match(rf"(Change |Patch |Seed )?{sx}\b", s)), None) or (secs[1 + "ABCDEF".index(x) % 2] if len(secs) > 2 else notes)
     open(f"{dst}/notes.md", "w").write("## " + sec)
     r = subprocess.run(["/verif/tools/try_patch.py", f"{dst}/patch.diff", pid], capture_output=True, text=True)
     first = next((l.strip() for l in r.stdout.splitlines() if "FINDING" in l), "")
@@ -62,7 +74,7 @@ for (pid, x), line in sorted(conf.items()):
                 confirmed=dict(how="scratch git worktree of /repo HEAD under /tmp (removed afterwards): demo.py on the unchanged tree, git apply patch.diff, "
                                    "compileall, demo.py again, pytest -n 4 tests/unit", result=line),
                 expected_caught=True, caught=fired, caught_by=rule.group(1) if rule else None, first_finding=first[:400],
-                initially_missed=MISSED.get(f"{pid}-{x}"))
+                initially_missed=MISSED.get(f"{pid}-{x}") or ROUND4_MISSED.get(f"{pid}-{x}"))
     json.dump(meta, open(f"{dst}/meta.json", "w"), indent=1)
     done.append((f"{pid}-{x}", fired, meta["caught_by"]))
 for d in done:
